@@ -2,6 +2,7 @@
 
 E1 input-space enumeration on the real functions against the reference codecs (vf/ref/codec.py).
 """
+import io
 import itertools
 from io import BytesIO
 
@@ -204,7 +205,7 @@ def _alphabet():
     A = [
         ('OP_0', 0), ('OP_1', 0x51), ('OP_16', 0x60), ('OP_1NEGATE', 0x4f), ('OP_DUP', 0x76), ('OP_IF', 0x63),
         ('OP_ENDIF', 0x68), ('OP_RETURN', 0x6a), ('OP_CHECKSIG', 0xac),
-        ('p1_00', b'\x00'), ('p1_51', b'\x51'), ('p5', b'\x01\x02\x03\x04\x05'), ('p20', bytes(range(1, 21))),
+        ('p0', b''), ('p1_00', b'\x00'), ('p1_51', b'\x51'), ('p5', b'\x01\x02\x03\x04\x05'), ('p20', bytes(range(1, 21))),
         ('p33_02', b'\x02' + bytes(range(32))),
         ('p64', bytes(range(64))), ('p75', b'\x07' * 75), ('p76', b'\x08' * 76), ('p255', b'\x09' * 255),
         ('p256', b'\x0a' * 256),
@@ -286,12 +287,14 @@ def sub_script(case):
         raw, items = _ref_items(case)
     devs = []
     outs = []
-    for entry in ('parse_bytes', 'parse', 'parse_hex'):
+    for entry in ('parse_bytes', 'parse', 'parse_hex', 'parse_stream'):
         try:
             if entry == 'parse_bytes':
                 s = Script.parse_bytes(raw)
             elif entry == 'parse':
                 s = Script.parse(raw)
+            elif entry == 'parse_stream':
+                s = Script.parse(io.BytesIO(raw))
             else:
                 s = Script.parse_hex(raw.hex())
             cmds = list(s.commands)
@@ -321,7 +324,7 @@ def sub_script(case):
         devs.append({'sig': 'Script.%s|%s' % (entry, cls),
                      'detail': {'script': raw.hex()[:200], 'commands': _show(cmds), 'expected': _show(items)}})
         outs.append('dev')
-    return {'devs': devs, 'n': 3, 'out': outs}
+    return {'devs': devs, 'n': 4, 'out': outs}
 
 
 def _show(items):
@@ -337,6 +340,10 @@ def _same_items(cmds, items):
     for c, i in zip(cmds, items):
         if isinstance(i, int):
             if not (isinstance(c, int) and c == i):
+                return False
+        elif i == b'':
+            # the empty item and OP_0 are the same byte on the wire
+            if not (c == 0 and isinstance(c, int)) and not (isinstance(c, (bytes, bytearray)) and bytes(c) == b''):
                 return False
         else:
             if not (isinstance(c, (bytes, bytearray)) and bytes(c) == i):
@@ -360,7 +367,87 @@ def _first_item_class(cmds, items):
     return 'extra_items'
 
 
-SUBS = {'cs': sub_cs, 'cs_nonminimal': sub_cs_nonminimal, 'varstr': sub_varstr, 'num': sub_num,
+def _mk(names, mode):
+    """A Script object for the item sequence: built from the command list, or parsed from the reference bytes."""
+    from bitcoinlib.scripts import Script
+    raw, items = _ref_items(names)
+    if mode == 'built':
+        return Script(commands=list(items)), raw, items
+    if mode == 'built_serialized':
+        s = Script(commands=list(items))
+        s.serialize()
+        return s, raw, items
+    return Script.parse_bytes(raw), raw, items
+
+
+def sub_build(case):
+    """Script objects built from a command list (not parsed): serialization = concatenation of the opcodes and the
+    minimal pushes of the data items, by every accessor and on repeated calls; parsing it gives the items back."""
+    from bitcoinlib.scripts import Script
+    raw, items = _ref_items(case)
+    devs, outs = [], []
+    try:
+        s = Script(commands=list(items))
+        obs = [('serialize', s.serialize()), ('as_bytes', s.as_bytes()), ('as_hex', bytes.fromhex(s.as_hex())),
+               ('serialize_again', s.serialize())]
+        s2 = Script(commands=list(items))
+        obs.append(('as_bytes_first', s2.as_bytes()))
+        s3 = Script(commands=list(items))
+        obs.append(('as_hex_first', bytes.fromhex(s3.as_hex())))
+    except Exception as e:
+        return {'devs': [{'sig': 'Script(commands)|raises_%s' % type(e).__name__,
+                          'detail': {'items': _show(items), 'exc': repr(e)[:200]}}], 'out': 'raise'}
+    for name, got in obs:
+        if got != raw:
+            has_empty = any(i == b'' for i in items)
+            devs.append({'sig': 'Script(commands).%s|differs_from_opcodes_and_minimal_pushes%s' % (
+                name, '|empty_item' if has_empty else ''),
+                'detail': {'items': _show(items), 'got': got.hex()[:200], 'expected': raw.hex()[:200]}})
+            outs.append('dev')
+        else:
+            outs.append('ok')
+    if [c for c in s.commands] != items and not _same_items(list(s.commands), items):
+        devs.append({'sig': 'Script(commands).commands|changed_by_serialization', 'detail': {'items': _show(items)}})
+    return {'devs': devs, 'n': len(obs), 'out': outs}
+
+
+def sub_concat(case):
+    """a + b for two Script objects in every combination of origin (built / built and serialized / parsed): the
+    sum serializes to bytes(a) + bytes(b) by every accessor and holds the items of both."""
+    devs, outs = [], []
+    for order in ('as_bytes_first', 'serialize_first'):
+        try:
+            a, ra, ia = _mk(case['a'], case['ma'])
+            b, rb, ib = _mk(case['b'], case['mb'])
+            if _explain(ra, ia, list(a.commands)) or _explain(rb, ib, list(b.commands)) or \
+                    _heuristic_class(ra) or _heuristic_class(rb):
+                outs.append('skipped_known_misparse')
+                continue
+            c = a + b
+            if order == 'as_bytes_first':
+                obs = [('as_bytes', c.as_bytes()), ('serialize', c.serialize())]
+            else:
+                obs = [('serialize', c.serialize()), ('as_bytes', c.as_bytes())]
+            cmds = list(c.commands)
+        except Exception as e:
+            devs.append({'sig': 'Script.__add__|raises_%s' % type(e).__name__,
+                         'detail': {'case': case, 'exc': repr(e)[:200]}})
+            outs.append('raise')
+            continue
+        for name, got in obs:
+            if got != ra + rb:
+                devs.append({'sig': 'Script.__add__|%s_of_sum_is_not_the_concatenation|left_%s|right_%s|%s' % (
+                    name, case['ma'], case['mb'], order),
+                    'detail': {'case': case, 'got': got.hex()[:200], 'expected': (ra + rb).hex()[:200]}})
+                outs.append('dev')
+            else:
+                outs.append('ok')
+        if not _same_items(cmds, ia + ib):
+            devs.append({'sig': 'Script.__add__|items_of_sum_differ', 'detail': {'case': case, 'commands': _show(cmds)}})
+    return {'devs': devs, 'n': 4, 'out': outs}
+
+
+SUBS = {'build': sub_build, 'concat': sub_concat, 'cs': sub_cs, 'cs_nonminimal': sub_cs_nonminimal, 'varstr': sub_varstr, 'num': sub_num,
         'numdec': sub_numdec, 'pack': sub_pack, 'script': sub_script}
 
 
@@ -408,7 +495,20 @@ def run(ctx):
     # ---- pushes
     ctx.pmap('pack', list(range(0, 521)) + [521, 1000, 65535, 65536] + ([] if q else list(range(522, 1000))))
     # ---- scripts over the alphabet
-    names = [n for n, _ in _alphabet()]
+    names_all = [n for n, _ in _alphabet()]
+    # ---- Script objects built from command lists (the empty data item included), and sums of two scripts
+    builds = []
+    for l in range(1, 4 if q else 5):
+        alpha = names_all if l <= 3 else [n for n in names_all if n not in ('p255', 'p256', 'p76', 'p75', 'p64', 'OP_16',
+                                                                            'OP_1NEGATE', 'OP_IF', 'OP_ENDIF')]
+        builds += [list(x) for x in itertools.product(alpha, repeat=l)]
+    ctx.pmap('build', builds)
+    parts = [[]] + [[n] for n in names_all] + ([] if q else [list(x) for x in itertools.product(
+        ['OP_1', 'p0', 'p5', 'p20', 'OP_DUP'], repeat=2)])
+    modes = ('built', 'built_serialized', 'parsed')
+    ctx.pmap('concat', [{'a': a, 'b': b, 'ma': ma, 'mb': mb} for a in parts for b in parts for ma in modes for mb in modes
+                        if a or b])
+    names = [n for n in names_all if n != 'p0']      # on the wire the empty item IS OP_0
     L = 3 if q else 4
     if q:
         names_l = names
